@@ -157,10 +157,61 @@ def search_preamble(ctx):
     return False
 
 
+# the three preamble axioms from which, with the symbol_order chain, distinctness of constants is PROVABLE
+# (premises of C12_distinct in Properties/C12.v)
+DISTINCTNESS_AXIOMS = ("p__less__def_ax", "transitive_ordering_ax", "antisymmetric_ordering_ax")
+
+
+def check_preamble_pin(ctx, cfg, proved=True):
+    """audit B8: the regenerated preamble against the list pinned in props/C12.json (`preamble_pin`:
+    names + content hashes of declarations and axioms).  Both sides of every check regenerate from
+    the same file, so without the pin an edit of the preamble is silent whenever the edited axioms
+    still prove.  A difference is reported as PREAMBLE-CHANGED (re-audit), not as a violation:
+      - a REMOVED axiom is not a C12 violation (C12 requires the axioms anthem emits to be true; no
+        property claims that the preamble is complete - C02 / C03 are soundness statements, a weaker
+        preamble only makes fewer problems provable; the three axioms the provable-distinctness
+        half of C12 needs are named in Properties/C12.v, so removing or weakening one of them
+        breaks the build);
+      - a NEW or CHANGED axiom is re-proved by C12_preamble in the same run (`proved`); when the
+        build is broken instead, the caller searches for a falsifying tuple and the generic rule
+        reports VIOLATION (no-failing-input-found if the search finds none)."""
+    pinned = cfg.get("preamble_pin")
+    if not pinned:
+        return []
+    try:
+        _, decls, axioms = p2c.parse_file(open(p2c.preamble_path()).read())
+    except (p2c.Bad, OSError) as b:
+        ctx.notes.append(f"preamble pin: preamble not translatable: {b}")
+        return []
+    diff = p2c.compare_pin(pinned, p2c.pin_of(decls, axioms))
+    if not diff:
+        vlib.log(f"preamble pin: {len(decls)} declarations, {len(axioms)} axioms, unchanged")
+        return []
+    parts = []
+    for kind, what, name in diff:
+        one = what[:-1]
+        if kind == "removed" and name in DISTINCTNESS_AXIOMS:
+            parts.append(f"{one} {name} REMOVED (needed by C12_distinct - 'any two distinct constants are provably distinct': "
+                         "Properties/C12.v names it, the build breaks)")
+        elif kind == "removed":
+            parts.append(f"{one} {name} REMOVED (not a C12 violation: only truth of the emitted axioms is required)")
+        elif kind == "reordered":
+            parts.append(f"{what} reordered")
+        else:
+            parts.append(f"{one} {name} {kind.upper()}" + (" (re-proved true in this run by C12_preamble / re-read by C12_preamble_text)" if proved
+                                                           else " (NOT proved: the build is broken; searching for a falsifying tuple)"))
+    line = ("PREAMBLE-CHANGED property=C12: standard_interpretation.p differs from the pinned preamble - re-audit and update "
+            "props/C12.json preamble_pin (`python3 tools/preamble2coq.py --pin`): " + "; ".join(parts))
+    print(line, flush=True)
+    ctx.notes.append(line)
+    return diff
+
+
 def search_on_break(ctx, cfg, broken):
     """a build / proof obligation broke: (1) a falsifying tuple of the current preamble; (2) the
     semantic oracles on fresh implementation outputs (chain for the original constants, chain for the
     printed names, transition axioms, task level); (3) CLI only, when the harness does not build"""
+    check_preamble_pin(ctx, cfg, proved=False)
     if search_preamble(ctx):
         return True
     before = len(ctx.violations)
@@ -349,6 +400,7 @@ def extra(ctx, cfg, results):
     # the axioms of the working tree's preamble, evaluated directly as well (cheap, independent of Coq)
     search_preamble(ctx)
     check_text_level(ctx)
+    check_preamble_pin(ctx, cfg, proved=True)
     chain_distribution(ctx, results)
     task_level(ctx, cfg)
 
